@@ -138,7 +138,23 @@ func cmdCheck(args []string) {
 		os.Exit(2)
 	}
 	vcs := generateAll(e)
-	sel := func(ob *Obligation) bool { return hasProp(ob, *prop) }
+	ledPath := filepath.Join(vdir, "ledger", *prop+".json")
+	var led Ledger
+	if data, err := os.ReadFile(ledPath); err == nil {
+		json.Unmarshal(data, &led)
+	} else if !*bless {
+		fmt.Fprintf(os.Stderr, "govc: no ledger %s\n", ledPath)
+		os.Exit(2)
+	}
+	wasUndecided := map[string]bool{}
+	for _, n := range led.Undecided {
+		wasUndecided[n] = true
+	}
+	all := func(ob *Obligation) bool { return hasProp(ob, *prop) }
+	// obligations that are undecided on the pinned tree are not claimed: the quick tier does not spend time on them
+	sel := func(ob *Obligation) bool {
+		return hasProp(ob, *prop) && (*bless || *tier == "thorough" || !wasUndecided[ob.Name])
+	}
 	tmo := 10000
 	if *tier == "thorough" {
 		tmo = 60000
@@ -147,13 +163,30 @@ func cmdCheck(args []string) {
 		tmo = 2000
 	}
 	solveAllSel(vcs, sel, tmo)
+	if *bless {
+		// second chance, standalone and on every solver, for what the incremental run did not decide
+		var again []*Obligation
+		owner := map[*Obligation]*VC{}
+		for _, vc := range vcs {
+			for _, ob := range vc.obls {
+				if sel(ob) && ob.Result != "unsat" {
+					again = append(again, ob)
+					owner[ob] = vc
+				}
+			}
+		}
+		parallelDo(len(again), func(i int) { owner[again[i]].retry(again[i], tmo) })
+	}
 
 	vcOf := map[*Obligation]*VC{}
 	var obls []*Obligation
 	byName := map[string]*Obligation{}
 	for _, vc := range vcs {
 		for _, ob := range vc.obls {
-			if sel(ob) {
+			if all(ob) {
+				if !sel(ob) {
+					ob.Result = "not-attempted"
+				}
 				obls = append(obls, ob)
 				vcOf[ob] = vc
 				byName[ob.Name] = ob
@@ -164,17 +197,15 @@ func cmdCheck(args []string) {
 		fmt.Fprintf(os.Stderr, "govc: no obligations generated for %s (vacuous check)\n", *prop)
 		os.Exit(2)
 	}
-	ledPath := filepath.Join(vdir, "ledger", *prop+".json")
+	for _, vc := range vcs {
+		if vc.Vacuous {
+			fmt.Fprintf(os.Stderr, "govc: contradictory entry assumptions in %s (vacuity probe failed)\n", e.fname(vc.fn))
+			os.Exit(2)
+		}
+	}
 	if *bless {
 		writeLedger(e, ledPath, *prop, obls, vcs)
 		return
-	}
-	var led Ledger
-	if data, err := os.ReadFile(ledPath); err == nil {
-		json.Unmarshal(data, &led)
-	} else {
-		fmt.Fprintf(os.Stderr, "govc: no ledger %s\n", ledPath)
-		os.Exit(2)
 	}
 	var kf KnownFindings
 	if data, err := os.ReadFile(filepath.Join(vdir, "known_findings.json")); err == nil {
@@ -183,10 +214,6 @@ func cmdCheck(args []string) {
 	inLedger := map[string]bool{}
 	for _, n := range led.Discharged {
 		inLedger[n] = true
-	}
-	wasUndecided := map[string]bool{}
-	for _, n := range led.Undecided {
-		wasUndecided[n] = true
 	}
 	known := map[string]KnownFinding{}
 	for _, k := range kf.Findings {
